@@ -256,6 +256,9 @@ fn encoder_history(rng: &mut Rng, out: &mut CaseOut) {
         }
     }
     out.add("working-memory poison fills (hook H1)", hooks::poison_fills() - fills0);
+    if poisoned && hooks::poison_fills() == fills0 {
+        out.inconclusive.push("H1 poison hook never reached although armed: the poisoned tier degenerated to the natural one".into());
+    }
     out.sample = Some(jobj(&[
         ("kind", jstr("encoder-history")),
         ("poisoned", poisoned.to_string()),
@@ -466,6 +469,9 @@ fn decoder_history(rng: &mut Rng, out: &mut CaseOut) {
         }
     }
     out.add("working-memory poison fills (hook H1)", hooks::poison_fills() - fills0);
+    if poisoned && hooks::poison_fills() == fills0 {
+        out.inconclusive.push("H1 poison hook never reached although armed: the poisoned tier degenerated to the natural one".into());
+    }
     out.sample = Some(jobj(&[
         ("kind", jstr("decoder-history")),
         ("poisoned", poisoned.to_string()),
